@@ -37,6 +37,9 @@ type refusal struct {
 	count map[string]int
 	fired atomic.Bool
 	off   atomic.Bool
+	// act != nil: the n-th call of that kind is not refused; act runs while the call is in
+	// progress (e.g. the connection is closed under it) and the call then goes ahead
+	act func()
 }
 
 var errRefused = fmt.Errorf("harness refusal: %w", network.ErrResourceLimitExceeded)
@@ -54,6 +57,13 @@ func (r *refusal) hit(kind string) bool {
 	r.count[kind] = k + 1
 	if r.kind == kind && r.n == k {
 		r.fired.Store(true)
+		if r.act != nil {
+			act := r.act
+			r.mu.Unlock()
+			act()
+			r.mu.Lock()
+			return false
+		}
 		return true
 	}
 	return false
